@@ -16,7 +16,26 @@ func TestMain(m *testing.M) { stats.Main(m) }
 
 var allTopics = []string{"", "a", "b", "c"}
 
+// wideTopics is the alphabet of the occasional wide topic set (subscriptions and messages
+// with up to ten topics, in either order).
+var wideTopics = []string{"", "a", "b", "c", "d", "e", "f", "g", "h", "i"}
+
 var genTopics = rapid.Custom(func(t *rapid.T) []string {
+	if stats.Pct(t, "widetopics") >= 80 {
+		mask := 1 + stats.Pick(t, 1<<len(wideTopics)-1, "widemask")
+		var out []string
+		for i, tp := range wideTopics {
+			if mask&(1<<i) != 0 {
+				out = append(out, tp)
+			}
+		}
+		if rapid.Bool().Draw(t, "descending") {
+			for i, j := 0, len(out)-1; i < j; i, j = i+1, j-1 {
+				out[i], out[j] = out[j], out[i]
+			}
+		}
+		return out
+	}
 	// 1..3 distinct topics out of {DefaultTopic, a, b, c}; order matters to nobody.
 	mask := rapid.IntRange(1, 14).Draw(t, "topicmask")
 	var out []string
